@@ -40,6 +40,12 @@ func ttlDur(c string) time.Duration {
 		return shortTTL
 	case ttlLong:
 		return longTTL
+	case "1s":
+		return time.Second
+	case "2s":
+		return 2 * time.Second
+	case "90s":
+		return 90 * time.Second
 	}
 	return 0
 }
@@ -101,6 +107,9 @@ func (o Op) String() string {
 	}
 	if o.Kind == "IncrBy" {
 		parts = append(parts, strconv.FormatInt(o.N, 10))
+	}
+	if o.Kind == "advance" {
+		parts = append(parts, (time.Duration(o.N) * time.Millisecond).String())
 	}
 	if o.TTL != "" {
 		parts = append(parts, "ttl="+o.TTL)
